@@ -47,6 +47,25 @@ def gql_string(s):
     return "".join(out)
 
 
+_DOCS = False     # set by sdl(docs=True): descriptions, comments, a custom directive everywhere it may appear
+
+
+def _tag(n):
+    return ' @tag(name: "%s")' % n if _DOCS else ""
+
+
+def _desc(what, indent, k):
+    """a description / comment in front of a definition; content that looks like SDL must stay text"""
+    if not _DOCS:
+        return ""
+    pad = " " * indent
+    if k % 3 == 0:
+        return '%s"""\n%sThe %s. It says "hi", has a brace { } and a fake definition:\n%s  type Fake { id: ID! } union U = A | B  \\""" é ✓\n%s"""\n' % (pad, pad, what, pad, pad)
+    if k % 3 == 1:
+        return '%s"%s: line description with \\"quotes\\", # no comment, type X { }"\n' % (pad, what)
+    return '%s# comment about %s: "type Person {" enum E { A }\n' % (pad, what)
+
+
 def _dep_sdl(dep):
     if dep is None:
         return ""
@@ -59,25 +78,41 @@ def _args_sdl(args):
     if not args:
         return ""
     parts = []
-    for a in args:
+    for k, a in enumerate(args):
         s = "%s: %s" % (a["name"], type_text(a["type"]))
         if a.get("default") is not None:
             s += " = " + a["default"]
+        s += _tag("arg")
+        if _DOCS:
+            s = "\n" + _desc("argument " + a["name"], 4, k) + "    " + s
         parts.append(s)
-    return "(" + ", ".join(parts) + ")"
+    return "(" + ", ".join(parts) + ("\n  " if _DOCS else "") + ")"
 
 
 def _fields_sdl(fields):
     lines = []
-    for f in fields:
-        lines.append("  %s%s: %s%s" % (f["name"], _args_sdl(f.get("args")), type_text(f["type"]),
-                                       _dep_sdl(f.get("dep"))))
+    for k, f in enumerate(fields):
+        d, t = _dep_sdl(f.get("dep")), _tag("f" + f["name"])
+        lines.append(_desc("field " + f["name"], 2, k) +
+                     "  %s%s: %s%s" % (f["name"], _args_sdl(f.get("args")), type_text(f["type"]),
+                                       (t + d) if k % 2 else (d + t)))
     return "\n".join(lines)
 
 
-def sdl(schema, order=None, fold_extensions=True, declare_builtins=False):
+def sdl(schema, order=None, fold_extensions=True, declare_builtins=False, docs=False):
     """Render SDL. `order` is a permutation of type indices. With
-    fold_extensions=False fields flagged ext go into `extend type` blocks placed last."""
+    fold_extensions=False fields flagged ext go into `extend type` blocks placed last.
+    docs=True adds what a real schema file has and the generator must ignore: descriptions,
+    comments, a directive definition and its applications."""
+    global _DOCS
+    _DOCS = bool(docs)
+    try:
+        return _sdl(schema, order, fold_extensions, declare_builtins)
+    finally:
+        _DOCS = False
+
+
+def _sdl(schema, order, fold_extensions, declare_builtins):
     types = schema["types"]
     idx = list(order) if order is not None else list(range(len(types)))
     out = []
@@ -91,21 +126,27 @@ def sdl(schema, order=None, fold_extensions=True, declare_builtins=False):
     if declare_builtins:
         for b in BUILTIN_SCALARS:
             out.append("scalar %s" % b)
+    if _DOCS:
+        out.append('"a custom directive"\ndirective @tag(\n  "its argument"\n  name: String!, extra: [Int!] = [1, 2]\n) on '
+                   'OBJECT | FIELD_DEFINITION | INTERFACE | UNION | ENUM | ENUM_VALUE | INPUT_OBJECT | '
+                   'INPUT_FIELD_DEFINITION | ARGUMENT_DEFINITION | SCALAR')
     exts = []
     first_exts = []      # extensions written BEFORE the type they extend (legal: SDL is order independent)
     for i in idx:
         t = types[i]
         k = t["kind"]
+        D = _desc("type " + t["name"], 0, i)
         if k == "SCALAR":
-            out.append("scalar %s" % t["name"])
+            out.append(D + "scalar %s%s" % (t["name"], _tag("scalar")))
         elif k == "ENUM":
             dv = t.get("deprecated_values") or {}
-            out.append("enum %s {\n%s\n}" % (t["name"], "\n".join(
-                "  " + v + (_dep_sdl(dv[v]) if v in dv else "") for v in t["values"])))
+            out.append(D + "enum %s%s {\n%s\n}" % (t["name"], _tag("enum"), "\n".join(
+                _desc("value " + v, 2, n) + "  " + v + (_dep_sdl(dv[v]) if v in dv else "") + _tag("v") + ("," if _DOCS else "")
+                for n, v in enumerate(t["values"]))))
         elif k == "UNION":
-            out.append("union %s = %s" % (t["name"], " | ".join(t["members"])))
+            out.append(D + "union %s%s = %s%s" % (t["name"], _tag("union"), "| " if _DOCS else "", " | ".join(t["members"])))
         elif k == "INTERFACE":
-            out.append("interface %s {\n%s\n}" % (t["name"], _fields_sdl(t["fields"])))
+            out.append(D + "interface %s%s {\n%s\n}" % (t["name"], _tag("iface"), _fields_sdl(t["fields"])))
         elif k == "OBJECT":
             impl = ""
             base_fields = t["fields"]
@@ -130,7 +171,7 @@ def sdl(schema, order=None, fold_extensions=True, declare_builtins=False):
                 ifaces = [i for i in ifaces if i not in ext_ifaces]
             if ifaces:
                 impl = " implements " + " & ".join(ifaces)
-            out.append("type %s%s {\n%s\n}" % (t["name"], impl, _fields_sdl(base_fields)))
+            out.append(D + "type %s%s%s {\n%s\n}" % (t["name"], impl, _tag("obj"), _fields_sdl(base_fields)))
             if ext_fields:
                 eimpl = (" implements " + " & ".join(ext_ifaces)) if ext_ifaces else ""
                 (first_exts if t.get("ext_first") else exts).append(
@@ -138,12 +179,12 @@ def sdl(schema, order=None, fold_extensions=True, declare_builtins=False):
         elif k == "INPUT_OBJECT":
             one = " @oneOf" if t.get("oneOf") else ""
             lines = []
-            for f in t["inputFields"]:
+            for n, f in enumerate(t["inputFields"]):
                 s = "  %s: %s" % (f["name"], type_text(f["type"]))
                 if f.get("default") is not None:
                     s += " = " + f["default"]
-                lines.append(s)
-            out.append("input %s%s {\n%s\n}" % (t["name"], one, "\n".join(lines)))
+                lines.append(_desc("input field " + f["name"], 2, n) + s + _tag("in"))
+            out.append(D + "input %s%s%s {\n%s\n}" % (t["name"], _tag("input") if n % 2 else "", one + ("" if n % 2 else _tag("input")), "\n".join(lines)))
         else:
             raise ValueError(k)
     head = out[:1] if (out and out[0].startswith("schema {")) else []
@@ -197,8 +238,10 @@ INTROSPECTION_TYPES = [
 
 
 def introspection_json(schema, order=None, wrapped=False, include_builtins=True,
-                       include_introspection_types=False, is_one_of=True, sparse=False):
-    """Render the introspection result of the schema.  `sparse` omits null members."""
+                       include_introspection_types=False, is_one_of=True, sparse=False, docs=False):
+    """Render the introspection result of the schema.  `sparse` omits null members.
+    docs=True fills in what a real server returns and the generator must ignore: descriptions,
+    directives, specifiedByURL, isRepeatable, deprecated arguments / input fields."""
     types = schema["types"]
     idx = list(order) if order is not None else list(range(len(types)))
     jt = []
@@ -254,6 +297,35 @@ def introspection_json(schema, order=None, wrapped=False, include_builtins=True,
         return {"name": roots[k]} if roots.get(k) else None
     doc = {"__schema": {"queryType": rt("query"), "mutationType": rt("mutation"),
                         "subscriptionType": rt("subscription"), "types": jt, "directives": []}}
+    if docs:
+        def describe(v, what="schema"):
+            if isinstance(v, dict):
+                if "description" in v and v.get("name") is not None and v.get("kind") not in ("NON_NULL", "LIST"):
+                    v["description"] = 'The %s %s. It says "hi", { } type Fake { id: ID! } \\ é ✓\nsecond line' % (what, v["name"])
+                if v.get("kind") == "SCALAR" and "fields" in v:
+                    v["specifiedByURL"] = "https://example.org/scalars/%s" % v["name"]
+                for k, x in v.items():
+                    describe(x, {"fields": "field", "args": "argument", "enumValues": "value", "inputFields": "input field",
+                                 "types": "type"}.get(k, what))
+                if "defaultValue" in v:                      # arguments and input fields (2021 spec)
+                    v.setdefault("isDeprecated", False)
+                    v.setdefault("deprecationReason", None)
+            elif isinstance(v, list):
+                for x in v:
+                    describe(x, what)
+        describe(doc)
+        strref = {"kind": "NON_NULL", "name": None, "ofType": {"kind": "SCALAR", "name": "String", "ofType": None}}
+        doc["__schema"]["description"] = "the schema"
+        doc["__schema"]["directives"] = [
+            {"name": "tag", "description": "a custom directive", "isRepeatable": False,
+             "locations": ["OBJECT", "FIELD_DEFINITION", "INTERFACE", "UNION", "ENUM", "ENUM_VALUE", "INPUT_OBJECT",
+                           "INPUT_FIELD_DEFINITION", "ARGUMENT_DEFINITION", "SCALAR"],
+             "args": [{"name": "name", "description": "its argument", "type": strref, "defaultValue": None}]},
+            {"name": "deprecated", "description": None, "isRepeatable": False,
+             "locations": ["FIELD_DEFINITION", "ENUM_VALUE"],
+             "args": [{"name": "reason", "description": None, "type": strref["ofType"], "defaultValue": "\"No longer supported\""}]},
+            {"name": "oneOf", "description": None, "isRepeatable": False, "locations": ["INPUT_OBJECT"], "args": []},
+        ]
     if sparse:
         doc = _strip_nulls(doc)
     if wrapped:
